@@ -387,10 +387,19 @@ def _make_class(modname, c, layers):
     if c.get('level') is not None:
         ns['level'] = c['level']
     weird = {}
+    counts = {}
     for t in c['tests']:
         ns[t['name']] = _make_test(t)
         if t.get('idx'):
             weird[t['name']] = t['idx']
+        if t.get('count'):
+            counts[t['name']] = t['count']
+    if counts:
+        # a test object that stands for several test cases (table-driven tests, wrappers around
+        # foreign collections): the runner counts countTestCases() for it
+        def countTestCases(self):
+            return counts.get(self._testMethodName, 1)
+        ns['countTestCases'] = countTestCases
     if weird:
         # unusual spellings of test ids (parametrised ids, custom __str__)
         def __str__(self):
